@@ -19,7 +19,7 @@ func init() {
 		Title:    "Fitted shapes contain their content; traced ends land on the outline",
 		Patterns: []string{"./lib/shape", "./d2graph", "./d2target", "./lib/geo", "./lib/label"},
 		Explanation: "Decides structural necessary conditions, not the fit inequality: (1) every shape-type constant of lib/shape has a constructor arm in NewShape and every DSL shape name of d2target maps to such a constant; (2) method-set pairing: a shape type that gives its text area another box than its own (overrides GetInnerBox) also overrides GetDimensionsToFit (so the fitted size accounts for that text area) and Perimeter (so ends are traced onto its real outline) — or is listed as rectangular by construction; " +
-			"(3) in Edge.TraceToShape the flags that divert an end to an outside label or icon are not carried over from the source end to the destination end: on every path from a `flag = true` of the source half to the test that guards tracing the destination onto its outline, the flag is reset; both ends are traced by TraceToShapeBorder with that end's own shape and points.",
+			"(3) in Edge.TraceToShape the flags that divert an end to an outside label or icon are not carried over from the source end to the destination end: on every path from a `flag = true` of the source half to the test that guards tracing the destination onto its outline, the flag is reset; both ends are traced by TraceToShapeBorder with that end's own shape and points;" +
 			" (4) axis twins: the helper pairs getTipWidth/getTipHeight, getArcWidth/getArcHeight and Orientation.IsHorizontal/IsVertical — confirmed mirror images of each other — stay token-for-token mirror images (identifiers renamed one-to-one, literal operands of products and sums in either order).",
 		NotCovered: "the fit inequality itself and the outline distance (numeric properties of the per-shape formulas, e.g. the callout tip arithmetic)",
 		Technique:  "static analysis: switch exhaustiveness, method-set pairing, typestate (stale-flag) reachability on go/cfg, sibling (axis-twin) agreement",
